@@ -144,11 +144,15 @@ def handshake(chk, prog):
             if not hcalls:
                 continue
             users = [blk for blk, t in c.calls() if (t.get("callee") or "").endswith("Fn::call") or (t.get("callee") or "").endswith("Sender::<T>::send")]
+            from .c01 import some_edge_of
+            ok_edges = [e for hb in hcalls for e in some_edge_of(prog, c, hb, "Ok")]
             for ub in users:
                 n += 1
                 ok = any(lab == "true" and desc_contains(d, lambda y: y[0] == "call" and y[1].endswith("::is_ok") and desc_contains(y[2], lambda z: z[0] == "call" and z[1].endswith("handshake")))
                          or (lab == "Ok" and desc_contains(d, lambda y: y[0] == "call" and y[1].endswith("handshake")))
                          for s, lab, d, info in core.guards_dominating(prog, c, ub))
+                # (guard clause `if handshake(..).is_err() { return }`, `match`, `?`: every way to the handler takes an edge on which the handshake returned Ok)
+                ok = ok or (bool(ok_edges) and core.must_pass(c, [0], [ub], through_edges=ok_edges, after_from=False) is None)
                 chk.ob("R2.handshake", p, "the WebSocket handler / hook runs only after a successful handshake", ok, "", where=c.where(ub))
     chk.floor("handshake-guarded handler calls", n, 2)
 
@@ -279,6 +283,15 @@ def control_frames(chk, prog, fn, facts):
             rv_ = st_.get("rv")
             if rv_ and rv_.get("k") == "agg" and rv_.get("adt", "").endswith("message::Message") and "text" in (rv_.get("fields") or []):
                 tds.append(core.describe(prog, b, rv_["ops"][rv_["fields"].index("text")]))
+    def _discriminating(d):
+        """`let text = matches!(frames.first(), Some(f) if f.opcode == Text)`: the flag is a merge of constants; what it derives from is in the
+        guards that tell its `true` definition from its `false` ones (guards common to all definitions, e.g. the receive loop's, do not count)."""
+        if not (isinstance(d, tuple) and d[0] == "multi" and len(d) > 4 and len(d[1]) == len(d[4]) and all(a in (("lit", True), ("lit", False)) for a in d[1])):
+            return d
+        gs = [[(s_, lab_, g_) for s_, lab_, g_, i_ in core.guards_dominating(prog, b, db)] for db in d[4]]
+        common = set.intersection(*[set((s_, lab_) for s_, lab_, g_ in g) for g in gs]) if gs else set()
+        return ("tuple", [g_ for alt, g in zip(d[1], gs) if alt == ("lit", True) for s_, lab_, g_ in g if (s_, lab_) not in common])
+    tds = [_discriminating(d) for d in tds]
     via = [sorted(set(c[1].rsplit("::", 1)[-1] for c in core.desc_calls(d) if core.re.search(r"<impl \[T\]>::(first|last|get)$|::(nth|next_back)$", c[1]))) for d in tds]
     fact("R4.assembly", "text/binary is taken from the first fragment", bool(tds) and all(v == ["first"] for v in via), f"text flag derives from {via}")
     for c in fam:
@@ -363,6 +376,21 @@ def closed_flag(chk, prog):
             for s, lab, d, info in core.guards_dominating(prog, b, sb):
                 if lab == "ConnectionClosed":
                     ok = True
+        if not sets:
+            # `self.closed |= matches!(message, Err(ConnectionClosed))`: the old value or-ed with a flag that is true exactly under that arm
+            for blk_i, blk in enumerate(b.blocks):
+                for s in blk["stmts"]:
+                    if not ("pl" in s and [e[1] for e in s["pl"]["p"] if e[0] == "f"] == [ci] and s["rv"]["k"] == "bin" and s["rv"]["op"] == "BitOr"):
+                        continue
+                    sets.append(blk_i)
+                    l_, r_ = describe(prog, b, s["rv"]["l"]), describe(prog, b, s["rv"]["r"])
+                    old_, new_ = (l_, r_) if (l_[0] == "field" and l_[2] == ci) else (r_, l_)
+                    if not (old_[0] == "field" and old_[2] == ci and new_[0] == "multi" and len(new_) > 4 and len(new_[1]) == len(new_[4])):
+                        continue
+                    t_defs = [db for alt, db in zip(new_[1], new_[4]) if alt == ("lit", True)]
+                    others = [alt for alt in new_[1] if alt != ("lit", True)]
+                    ok = bool(t_defs) and all(a == ("lit", False) for a in others) and \
+                        all(any(lab == "ConnectionClosed" for s2, lab, d, info in core.guards_dominating(prog, b, db)) for db in t_defs)
         chk.ob("R3.closed_flag", fn, "closed = true exactly on ConnectionClosed", ok and len(sets) == 1, f"{len(sets)} assignments")
     fs = prog.impl_fn(r"^<humphrey_ws::stream::WebsocketStream as std::ops::Drop>$", "drop")
     chk.floor("Drop for WebsocketStream", len(fs), 1)
@@ -395,7 +423,13 @@ def blocking_mode_restored(chk, prog, rule="R7.blocking_restored"):
         if tb:
             starts = [tb[2]]     # is_err() == false: the socket is now non-blocking
         else:
-            starts = b.succs(n)
+            # `set_nonblocking().map_err(..)?` / `match`: the edges on which the call returned Ok
+            from .c01 import some_edge_of
+            ok_edges = some_edge_of(prog, b, n, "Ok")
+            for mb, mt in b.calls_to(r"Result::<T, E>::map_err$"):
+                if core.op_local(mt["args"][0]) == b.term(n)["dest"]["l"]:
+                    ok_edges = ok_edges or some_edge_of(prog, b, mb, "Ok")
+            starts = [tgt for _, tgt in ok_edges] or b.succs(n)
         w = core.must_pass(b, starts, rets, through_nodes=bl, after_from=False)
         chk.ob(rule, fn, "set_nonblocking() succeeded -> every return passes set_blocking()", w is None and bool(bl),
                "the probe can return (e.g. `nothing yet`) with the socket still non-blocking: later blocking receives fail with WouldBlock and large sends are cut short mid-frame",
